@@ -18,6 +18,8 @@ structure DState where
   triples : Array Triple := #[]
   selTriples : Array Triple := #[]
   queries : Array Query := #[]
+  /-- explicit selection (`SEL` lines): node ↦ labels; overrides the class-based selection in the spec modes -/
+  selLines : Array (String × List String) := #[]
 
 def parseBool (s : String) : Bool := s == "1" || s == "true" || s == "True"
 def splitList (s : String) : List String := if s.isEmpty then [] else s.splitOn "|"
@@ -49,7 +51,7 @@ def parseCard (s : String) : Card :=
 
 def runCase (st : DState) (what id : String) : List String :=
   let g := st.triples.toList
-  let sel := Spec.selectionOf st.cfg st.selTriples.toList
+  let sel := if st.selLines.isEmpty then Spec.selectionOf st.cfg st.selTriples.toList else st.selLines.toList
   let body : List String :=
     match what with
     | "keys" =>
@@ -75,6 +77,7 @@ def stepLine (st : DState) (line : String) : DState × List String :=
     let t : Triple := { s := mkTerm sk s, p := p, o := mkTerm ok o }
     ({ st with triples := st.triples.push t, selTriples := st.selTriples.push t }, [])
   | ["TX", sk, s, p, ok, o] => ({ st with triples := st.triples.push { s := mkTerm sk s, p := p, o := mkTerm ok o } }, [])
+  | ["SEL", n, ls] => ({ st with selLines := st.selLines.push (n, splitList ls) }, [])
   | ["Q", c, inv, p, ty, card] =>
     ({ st with queries := st.queries.push { cls := c, inv := inv == "I", prop := p, ty := ty, card := parseCard card } }, [])
   | ["RUN", what, id] => ({}, runCase st what id)
